@@ -26,6 +26,28 @@ func init() {
 	commands["buf-c19"] = func(w string) { runBuf(w, "C19") }
 }
 
+// Blob is a structured argument whose decoder keeps a view of its input (as the code codec and protobuf
+// byte fields do).
+type Blob struct{ Data []byte }
+
+// flexCodec: BYTESCodec for *[]byte, zero-copy for *Blob
+type flexCodec struct{ rpc.BYTESCodec }
+
+func (c *flexCodec) Marshal(buf []byte, v interface{}) ([]byte, error) {
+	if b, ok := v.(*Blob); ok && b != nil {
+		return b.Data, nil
+	}
+	return c.BYTESCodec.Marshal(buf, v)
+}
+
+func (c *flexCodec) Unmarshal(data []byte, v interface{}) error {
+	if b, ok := v.(*Blob); ok && b != nil {
+		b.Data = data
+		return nil
+	}
+	return c.BYTESCodec.Unmarshal(data, v)
+}
+
 type retained struct {
 	kind string
 	b    []byte
@@ -65,6 +87,13 @@ func (k *KeepSvc) Keep(req *[]byte, res *[]byte) error {
 func (k *KeepSvc) Echo(req *[]byte, res *[]byte) error {
 	k.r.keep("request-args", *req)
 	*res = *req
+	return nil
+}
+
+// KeepBlob keeps the bytes of a structured argument.
+func (k *KeepSvc) KeepBlob(req *Blob, res *Blob) error {
+	k.r.keep("request-args", req.Data)
+	res.Data = []byte{byte(len(req.Data))}
 	return nil
 }
 
@@ -157,8 +186,8 @@ func runBuf(work, prop string) {
 		bufSize := []int{0, 512, 65536, 100, 1000, 70000}[k%6] // pool classes and sizes between them
 		srv.SetBufferSize(bufSize)
 		srv.RegisterName("K", &KeepSvc{r: ret})
-		go srv.ServeCodec(rpc.NewServerCodec(&rpc.BYTESCodec{}, encoderOf(enc), socket.NewMessages(srvRW, false), false, 0))
-		conn := rpc.NewConnWithCodec(rpc.NewClientCodec(&rpc.BYTESCodec{}, encoderOf(enc), socket.NewMessages(cliRW, false), 0))
+		go srv.ServeCodec(rpc.NewServerCodec(&flexCodec{}, encoderOf(enc), socket.NewMessages(srvRW, false), false, 0))
+		conn := rpc.NewConnWithCodec(rpc.NewClientCodec(&flexCodec{}, encoderOf(enc), socket.NewMessages(cliRW, false), 0))
 		if cliDirect {
 			conn.SetDirectIO(true)
 		}
@@ -193,6 +222,30 @@ func runBuf(work, prop string) {
 				e.fail("C01-wrong-reply", "echo differs from what was sent", desc)
 			}
 			e.count("traffic", fmt.Sprintf("echo-%s-%s", enc, lenClass(n)))
+		}
+		// structured arguments decoded zero-copy, kept by the handler
+		for _, n := range []int{40, 900, 5000, 66000} {
+			req := &Blob{Data: make([]byte, n)}
+			e.Rng.Read(req.Data)
+			var res Blob
+			if err := conn.Call("K.KeepBlob", req, &res); err != nil {
+				e.fail("C01-call-failed", fmt.Sprintf("call failed: %v", err), desc)
+			}
+			e.count("traffic", fmt.Sprintf("blob-%s-%s", enc, lenClass(n)))
+		}
+		// one reply variable used for two calls while the first reply is kept
+		{
+			var shared []byte
+			r1 := make([]byte, 300)
+			e.Rng.Read(r1)
+			r1[0] = 'a'
+			if err := conn.Call("K.Keep", &r1, &shared); err == nil {
+				ret.keep("reply", shared)
+				r2 := make([]byte, 200)
+				e.Rng.Read(r2)
+				r2[0] = 'b'
+				conn.Call("K.Keep", &r2, &shared)
+			}
 		}
 		// stream messages
 		st, err := conn.NewStream("K.Chat")
